@@ -81,3 +81,7 @@ impl<'a> traits::Message<'a> for msg::System<'a> {
         self.encode_msg(p)
     }
 }
+
+#[cfg(any(kani, libtw2_verif))]
+#[path = "/verif/kani/gamenet_codec.rs"]
+mod verif_kani;
